@@ -1116,6 +1116,10 @@ Section LookupsProofs.
     intros it I. destruct (D9 it I) as (q & a & r & L & H). exists q, a, r. split; [apply Sub; assumption|assumption].
   Qed.
 
+  Ltac dfin :=
+    try assumption; intros; try discriminate; try reflexivity; try assumption; try contradiction; try tauto;
+    try (match goal with H : In _ [] |- _ => destruct H end).
+
   Lemma invD_step s l : LInvB s -> LInvD s -> enabled s l = true -> LInvD (step s l).
   Proof.
     intros IB ID En.
@@ -1124,46 +1128,45 @@ Section LookupsProofs.
     all: pose proof En as En'; unfold Lookups.enabled in En'; apply andb_prop in En'; destruct En' as [_ T]; boolhyps.
     all: destruct ID as [D1 D2 D3 D4 D5 D6 D7 D8 D9].
     - (* OStartTrav *)
-      unfold Lookups.step. rwown. cbn in *. constructor; cbn; try assumption; intros; try discriminate.
+      unfold Lookups.step. rwown. cbn in *. constructor; cbn; dfin.
     - (* OGetNodes *)
       unfold Lookups.step. rwown. cbn in *. destruct (D1 eq_refl) as (R0 & C0 & G0 & A0 & E0).
       destruct (lc_sn c); [destruct (is_announce c)|destruct (is_announce c || repaired c)..];
-        constructor; cbn; rewrite ?R0, ?C0, ?G0, ?A0, ?E0; intros; try discriminate; try reflexivity; try assumption; try tauto.
+        constructor; cbn; rewrite ?R0, ?C0, ?G0, ?A0, ?E0; dfin.
     - (* OStalled *)
       unfold Lookups.step. rwown. cbn in *.
       destruct (lc_api c) eqn:Api; try destruct (l_got s) eqn:Got;
-        constructor; cbn; intros; try discriminate; try assumption; try tauto;
-        try (rewrite <- (app_nil_r (l_recv s)); first [apply D3|apply D7]; reflexivity).
-      + apply D5; assumption.
+        constructor; cbn; dfin;
+        try (rewrite <- (app_nil_r (l_recv s)); first [apply D3|apply D7]; reflexivity);
+        try (apply D5; assumption).
     - (* OCtx *)
       unfold Lookups.step. rwown. cbn in *.
-      constructor; cbn; intros; try discriminate; try assumption; try tauto.
-      + rewrite <- (app_nil_r (l_recv s)). apply D3; [assumption|reflexivity].
-      + apply D5; assumption.
-      + rewrite <- (app_nil_r (l_recv s)). apply D7; [assumption|reflexivity].
+      constructor; cbn; dfin;
+        try (rewrite <- (app_nil_r (l_recv s)); first [apply D3|apply D7]; [assumption|reflexivity]);
+        try (apply D5; assumption).
     - (* OStopStep *)
       unfold Lookups.step. rwown. cbn in *.
-      destruct (lc_api c) eqn:Api; [destruct (l_err s)|..]; constructor; cbn; intros; try discriminate; try assumption; try tauto;
+      destruct (lc_api c) eqn:Api; [destruct (l_err s)|..]; constructor; cbn; dfin;
         try (apply D4; [assumption|reflexivity]); try (apply D6; [assumption|reflexivity|assumption]);
         try (apply D8; [assumption|reflexivity]); try (apply D5; assumption).
     - (* OStoppedStep *)
       unfold Lookups.step. rwown. cbn in *.
-      destruct (lc_api c) eqn:Api; [|destruct (lc_ann c)|..]; constructor; cbn; intros; try discriminate; try assumption; try tauto;
+      destruct (lc_api c) eqn:Api; [|destruct (lc_ann c)|..]; constructor; cbn; dfin;
         try (apply D4; [assumption|reflexivity]); try (apply D6; [assumption|reflexivity|assumption]);
         try (apply D8; [assumption|reflexivity]); try (apply D5; assumption).
     - (* OSend *)
       unfold Lookups.step. rwown. cbn in *. destruct (l_todo s); [discriminate|].
-      constructor; cbn; rewrite ?H; cbn; intros; try discriminate; try assumption; try tauto;
+      constructor; cbn; rewrite ?H; cbn; dfin;
         try (apply D4; [assumption|reflexivity]); try (apply D6; [assumption|reflexivity|assumption]);
         try (apply D8; [assumption|reflexivity]); try (apply D5; assumption).
     - (* OSendsDone *)
       unfold Lookups.step. rwown. cbn in *.
-      destruct (is_announce c); constructor; cbn; intros; try discriminate; try assumption; try tauto;
+      destruct (is_announce c); constructor; cbn; dfin;
         try (apply D4; [assumption|reflexivity]); try (apply D6; [assumption|reflexivity|assumption]);
         try (apply D8; [assumption|reflexivity]); try (apply D5; assumption).
     - (* OCloseP *)
       unfold Lookups.step. rwown. cbn in *.
-      constructor; cbn; intros; try discriminate; try assumption; try tauto;
+      constructor; cbn; dfin;
         try (apply D4; [assumption|reflexivity]); try (apply D6; [assumption|reflexivity|assumption]);
         try (apply D8; [assumption|reflexivity]); try (apply D5; assumption).
     - (* QReturn *)
